@@ -114,6 +114,30 @@ def scalars(rng, order, count):
     return [k for k in out if top <= k < order][:count]
 
 
+def short_scalars(rng, order, L, count):
+    """secret scalars of the public bit length L < bits(order): extreme Hamming weights, alternating patterns, values on
+    both sides of 2^bits(order) - order (where k + order carries into the next bit - the ladders add the order once or
+    twice), seeded random"""
+    top = 1 << (L - 1)
+    T = (1 << order.bit_length()) - order
+    out = [top, top + 1, (1 << L) - 1, top | (int("aa" * (L // 8 + 1), 16) & (top - 1)) | 1, top | (int("55" * (L // 8 + 1), 16) & (top - 1))]
+    out += [T - 2, T - 1, T, T + 1, T + 2]
+    while len(out) < count + 10:
+        out.append(top | rng.getrandbits(L - 1))
+    seen, res = set(), []
+    for k in out:
+        if k.bit_length() == L and 0 < k < order and k not in seen:
+            seen.add(k)
+            res.append(k)
+    return res[:count]
+
+
+def short_lengths(order):
+    b = order.bit_length()
+    T = (1 << b) - order
+    return sorted(set(L for L in (64, 65, T.bit_length(), b // 2, b - 1) if 8 <= L < b))
+
+
 def gen_cases(rng, quick, ids, orders):
     cases = []
     n_s = 12 if quick else 128
@@ -137,6 +161,10 @@ def gen_cases(rng, quick, ids, orders):
         for alg in ("ep_mul_monty", "ep_mul_lwreg"):
             for k in ks:
                 cases.append("%s %s/%d %d %x" % (alg, alg, i, i, k))
+            # shorter secrets: one class per public bit length
+            for L in short_lengths(orders[i]):
+                for k in short_scalars(rng, orders[i], L, 6 if quick else 24):
+                    cases.append("%s %s/%d/L%d %d %x" % (alg, alg, i, L, i, k))
         for k in ks[:6]:
             cases.append("ep_mul_lwnaf ctl-ep_mul_lwnaf/%d %d %x" % (i, i, k))
     for i in [x for x in ids if x in (23, 24)]:
@@ -144,6 +172,11 @@ def gen_cases(rng, quick, ids, orders):
         for alg in ("g1_mul_sec", "g2_mul_sec", "gt_exp_sec", "ep2_mul_monty"):
             for k in (ks if alg != "gt_exp_sec" else ks[:max(6, n_s // 4)]):
                 cases.append("%s %s/%d %d %x" % (alg, alg, i, i, k))
+            for L in short_lengths(orders[i]):
+                if alg == "gt_exp_sec" and quick and L not in (64, 65):
+                    continue
+                for k in short_scalars(rng, orders[i], L, 5 if quick else 16):
+                    cases.append("%s %s/%d/L%d %d %x" % (alg, alg, i, L, i, k))
         for k in ks[:4]:
             cases.append("ep2_mul_lwnaf ctl-ep2_mul_lwnaf/%d %d %x" % (i, i, k))
     # binary curves (Lopez-Dahab ladder) and binary-field exponentiation: eb parameter ids are passed negated
@@ -151,6 +184,9 @@ def gen_cases(rng, quick, ids, orders):
         ks = scalars(rng, order, n_s)
         for k in ks:
             cases.append("eb_mul_lodah eb_mul_lodah/%d %d %x" % (bid, -bid, k))
+        for L in short_lengths(order):
+            for k in short_scalars(rng, order, L, 6 if quick else 24):
+                cases.append("eb_mul_lodah eb_mul_lodah/%d/L%d %d %x" % (bid, L, -bid, k))
         for k in ks[:5]:
             cases.append("eb_mul_lwnaf ctl-eb_mul_lwnaf/%d %d %x" % (bid, -bid, k))
     for bid in list(EB_ORDERS)[:1]:
